@@ -17,6 +17,7 @@ package oidc
 //@   ensures  frame: OnlySid(old(View), View, self.pay, sessionID)
 //@   ensures  err_nil: err != nil ==> t == nil
 //@   ensures  got: t != nil ==> old(View)[self.pay][sessionID].present && old(View)[self.pay][sessionID].hasTok && TokOf(t) == old(View)[self.pay][sessionID].tok
+//@   ensures  got_kept: t != nil ==> Touched(old(View)[self.pay][sessionID], View[self.pay][sessionID])
 //@   ensures  after: Touched(old(View)[self.pay][sessionID], View[self.pay][sessionID]) || !View[self.pay][sessionID].present
 
 //@ interface SessionStore method GetAuthorizationState(self, ctx, sessionID) (a, err)
@@ -24,6 +25,7 @@ package oidc
 //@   ensures  frame: OnlySid(old(View), View, self.pay, sessionID)
 //@   ensures  err_nil: err != nil ==> a == nil
 //@   ensures  got: a != nil ==> old(View)[self.pay][sessionID].present && old(View)[self.pay][sessionID].hasAuth && AuthOf(a) == old(View)[self.pay][sessionID].auth
+//@   ensures  got_kept: a != nil ==> Touched(old(View)[self.pay][sessionID], View[self.pay][sessionID])
 //@   ensures  after: Touched(old(View)[self.pay][sessionID], View[self.pay][sessionID]) || !View[self.pay][sessionID].present
 
 //@ interface SessionStore method SetTokenResponse(self, ctx, sessionID, tokenResponse) err
